@@ -32,6 +32,18 @@ BlockCopyBijective(rows, cols, N) ==
     {BlockCopyIndex(rows, N, i, ii, j, jj) : i \in 0..(rows - 1), ii \in 0..(N - 1), j \in 0..(cols - 1), jj \in 0..(N - 1)}
         = 0..(rows * cols * N * N - 1)
 
+\* ---- sub-matrix views through the strided entry point: element (i,j) at i*rs + j*cs with
+\* row major rs = ld, cs = 1, column major rs = 1, cs = ld, leading dimension ld >= cols (rows)
+ViewOffset(order, ld, i, j) == IF order = 0 THEN i * ld + j ELSE i + j * ld
+ViewOffsets(rows, cols, order, ld) == {ViewOffset(order, ld, i, j) : i \in 0..(rows - 1), j \in 0..(cols - 1)}
+\* the view addresses rows*cols distinct elements ...
+ViewInjective(rows, cols, order, ld) == Cardinality(ViewOffsets(rows, cols, order, ld)) = rows * cols
+\* ... which are the first rows*cols elements of the array exactly when the storage is packed (or a single line):
+\* a loop over A[0 .. rows*cols-1] (as the wide branch of solve() used for the conjugation) is a loop over the
+\* matrix only then
+PrefixIsView(rows, cols, order, ld) == ViewOffsets(rows, cols, order, ld) = 0..(rows * cols - 1)
+Packed(rows, cols, order, ld) == ld = (IF order = 0 THEN cols ELSE rows) \/ (IF order = 0 THEN rows ELSE cols) = 1
+
 \* thresholds in millidecades (-12000 <-> 1e-12): >= 10x above the worst value seen on the
 \* unchanged tree over 40 seeds (about -14700, see docs/C16.md)
 QrTol == -12000
@@ -41,4 +53,9 @@ QrOK(r) ==
     /\ r.lowzero                              \* R(i,j) = 0 exactly for j < i
     /\ r.qtail                                \* wide case: the columns of Q beyond min(rows,cols) are zero
     /\ (r.solved = 1 => r.e_opt <= QrTol /\ r.e_x <= QrTol)     \* least squares / minimum norm
+\* solve() on a sub-matrix view (leading dimension ld, pad = ld - packed size): the least-squares (tall, square) /
+\* minimum-norm (wide) solution of the view, and nothing outside the view is written
+QrViewOK(r) ==
+    r.solved = 1 => /\ r.e_opt <= QrTol /\ r.e_x <= QrTol
+                    /\ r.outside
 =============================================================================
